@@ -1977,9 +1977,7 @@ impl QueryRouter {
             StatementKind::DropTable(drop) => {
                 match self.relational.drop_table(&drop.table.name) {
                     // DROP TABLE IF EXISTS on a missing table is a no-op, not an error.
-                    Err(relational_engine::RelationalError::TableNotFound(_))
-                        if drop.if_exists =>
-                    {
+                    Err(relational_engine::RelationalError::TableNotFound(_)) if drop.if_exists => {
                         Ok(QueryResult::Empty)
                     },
                     Err(e) => Err(e.into()),
@@ -4212,8 +4210,7 @@ impl QueryRouter {
                 // states where the NULLs go regardless of direction, so the placement
                 // of a NULL against a non-NULL must not be reversed with it.
                 let is_null = |v: &Option<Value>| matches!(v, None | Some(Value::Null));
-                let null_placement =
-                    item.nulls.is_some() && (is_null(&val_a) != is_null(&val_b));
+                let null_placement = item.nulls.is_some() && (is_null(&val_a) != is_null(&val_b));
                 let cmp = match item.direction {
                     SortDirection::Desc if !null_placement => cmp.reverse(),
                     SortDirection::Asc | SortDirection::Desc => cmp,
